@@ -805,7 +805,8 @@ func (s *Store) GetRefreshTokenInfo(ctx context.Context, clientID, token string)
 	defer s.mu.Unlock()
 	r, ok := s.Refresh[token]
 	if !ok {
-		return "", "", op.ErrInvalidRefreshToken
+		// the sentinel the contract names, wrapped with context as storages do (callers compare with errors.Is)
+		return "", "", fmt.Errorf("refresh token of client %q: %w", clientID, op.ErrInvalidRefreshToken)
 	}
 	return r.Subject, r.ID, nil
 }
